@@ -11,7 +11,7 @@ sys.path.insert(0, os.path.join(VERIF, "py2coq"))
 sys.path.insert(0, os.path.join(VERIF, "harness"))
 
 ALL_MODULES = ["base", "Angle", "Epoch", "Interpolation", "CurveFitting", "Coordinates", "Earth", "Sun", "Moon",
-               "Mercury", "Venus", "Mars", "Jupiter", "Saturn", "Uranus", "Neptune", "Pluto", "Minor"]
+               "Mercury", "Venus", "Mars", "Jupiter", "Saturn", "Uranus", "Neptune", "Pluto", "Minor", "JupiterMoons"]
 
 
 def mods(*names):
